@@ -8,8 +8,10 @@ Two layers:
   transcribed from the canonical-ABI async definitions; rules taken from comments/assertions of the
   repository rather than from the spec text are marked (R).
 * **Resolution** (`Host.importCall`, `advance`, `subtaskCancel`, …): the deterministic way the mock
-  host picks one legal answer from the script.  `Proofs/AsyncHost.lean` shows every resolved answer
-  is legal; the driver re-checks the answers recorded in a real trace with the rules.
+  host picks one legal answer from the script.  `Props.C21.host_cancel_answer_legal` shows the resolved
+  `subtask.cancel` answer is legal (the other resolutions are legal by their guards: `importCall` only
+  answers the scripted STARTING/STARTED/RETURNED, `advance` applies `legalAdvance`); the driver re-checks
+  every answer recorded in a real trace against the rules (`follow`).
 
 Numeric codes here are the *specification's* (hand-written, not generated from the runtime):
 a runtime whose private constants drift makes the correspondence run and the theorems that mention
